@@ -41,14 +41,27 @@ CONSTANTS
                \*                         size <= ScratchCap and consumes what fitted: after a body of ScratchCap-3 ..
                \*                         ScratchCap bytes 1..4 bytes of PreviousTagSize are left in the stream
 
+               \* the caller's memory and the way the end of the stream is signalled (both are the caller's choice):
+               \*   "mux-append-in-place" the muxer builds body + PreviousTagSize with append(body, ...): when the
+               \*                         caller's slice has >= 4 bytes of spare capacity the 4 bytes are stored in the
+               \*                         caller's memory behind the body - the body of a later tag if the bodies are
+               \*                         adjacent windows of one buffer; that tag is written corrupted
+               \*   "demux-err-before-n"  the demuxer's read loop looks at the error before it credits the bytes: when
+               \*                         the reader returns the last bytes of the stream together with end-of-stream
+               \*                         the call that needs them fails and the last tag is lost
+
 VARIABLES
   flags, tags,              \* the input: what the application writes
+  arena,                    \* the caller's memory: all tag bodies, adjacent in one buffer in file order; WriteTag k gets the
+                            \* window [BodyOff(k), BodyOff(k) + n) of it, with capacity up to the end of the buffer
+                            \* (a body allocated on its own is the case of the last window: nothing behind it)
   mpc, written, file,       \* muxer: call state, number of tags written, bytes produced so far
   avail,                    \* transport: number of bytes of the file delivered to the reader so far
+  eofWith,                  \* transport: the last bytes were delivered TOGETHER with end-of-stream (io.Reader: n > 0, io.EOF)
   dpc, pos, pending,        \* demuxer: call state, bytes consumed, the tag header read last
   hdrOut, got               \* demuxer: result of ReadHeader, tags returned so far
 
-vars == <<flags, tags, mpc, written, file, avail, dpc, pos, pending, hdrOut, got>>
+vars == <<flags, tags, arena, mpc, written, file, avail, eofWith, dpc, pos, pending, hdrOut, got>>
 
 \* ----------------------------------------------------------------- layout
 FlagsByte(f) == (IF f.audio THEN 4 ELSE 0) + (IF f.video THEN 1 ELSE 0)
@@ -70,18 +83,28 @@ FileEnc(f, gs) == HeaderEnc(f) \o TagsEnc(gs)
 ScratchCap == 16
 Min(a, b)  == IF a < b THEN a ELSE b
 
-\* What the modelled muxer writes for a tag (the layout, unless a deviation is switched on).
-MuxTagEnc(g) ==
-  CASE Deviation = "pts-body-only" ->
-         <<U8(g.t), U24(g.n), U24(g.ts[2]), U8(g.ts[1]), U24(0)>> \o BodyEnc(g) \o <<U32(g.n)>>
-    [] Deviation = "ts-ext-first" ->
-         <<U8(g.t), U24(g.n), U8(g.ts[1]), U24(g.ts[2]), U24(0)>> \o BodyEnc(g) \o <<U32(11 + g.n)>>
-    [] OTHER -> TagEnc(g)
-\* ... as bytes: the fast path writes only what fitted into the scratch
-MuxTagBytes(g) ==
-  IF Deviation = "mux-scratch-trunc" /\ 11 + g.n <= ScratchCap
-  THEN Sub(Bytes(TagEnc(g)), 1, Min(15 + g.n, ScratchCap))
-  ELSE Bytes(MuxTagEnc(g))
+\* the caller's memory as the application filled it: the bodies of all tags one after the other
+RECURSIVE ArenaOf(_)
+ArenaOf(gs) == IF gs = <<>> THEN <<>> ELSE FieldBytes(Fill(Head(gs).n, Head(gs).id)) \o ArenaOf(Tail(gs))
+RECURSIVE BodyOff(_, _)
+BodyOff(gs, k) == IF k <= 1 THEN 0 ELSE gs[k - 1].n + BodyOff(gs, k - 1)   \* where the body of tag k starts (0-based)
+
+\* What the modelled muxer writes for a tag whose body it finds in the caller's memory (the layout, unless a deviation
+\* is switched on): header fields, the body bytes as they are in memory NOW, PreviousTagSize
+MuxHeadEnc(g) ==
+  IF Deviation = "ts-ext-first" THEN <<U8(g.t), U24(g.n), U8(g.ts[1]), U24(g.ts[2]), U24(0)>>
+  ELSE <<U8(g.t), U24(g.n), U24(g.ts[2]), U8(g.ts[1]), U24(0)>>
+MuxPtsEnc(g)  == IF Deviation = "pts-body-only" THEN <<U32(g.n)>> ELSE <<U32(11 + g.n)>>
+MuxTagBytes(g, body) ==
+  LET all == Bytes(MuxHeadEnc(g)) \o body \o Bytes(MuxPtsEnc(g)) IN
+  \* the fast path writes only what fitted into the scratch
+  IF Deviation = "mux-scratch-trunc" /\ 11 + g.n <= ScratchCap THEN Sub(all, 1, Min(15 + g.n, ScratchCap)) ELSE all
+\* What the call leaves in the caller's memory (the layout says nothing: the muxer only reads it)
+MuxArenaAfter(mem, off, g) ==
+  IF Deviation = "mux-append-in-place" /\ Len(mem) - (off + g.n) >= 4
+  THEN LET p == Bytes(<<U32(11 + g.n)>>) IN
+       [i \in 1..Len(mem) |-> IF i > off + g.n /\ i <= off + g.n + 4 THEN p[i - off - g.n] ELSE mem[i]]
+  ELSE mem
 \* How many bytes the modelled demuxer's ReadTag takes from the stream for a body of n bytes (the layout: n + 4)
 DemuxTagTake(n) ==
   IF Deviation = "demux-scratch-short" /\ n <= ScratchCap THEN Min(n + 4, ScratchCap) ELSE n + 4
@@ -130,8 +153,9 @@ CTags(gs) == [i \in 1..Len(gs) |-> CTag(gs[i])]
 
 \* ------------------------------------------------------------ transitions
 Init == /\ flags \in FlagSets /\ tags \in TagLists
+        /\ arena = ArenaOf(tags)
         /\ mpc = "hdr" /\ written = 0 /\ file = <<>>
-        /\ avail = 0
+        /\ avail = 0 /\ eofWith = FALSE
         /\ dpc = "hdr" /\ pos = 0 /\ pending = [t |-> 0, n |-> 0, ts |-> <<0, 0>>]
         /\ hdrOut = [sig |-> FALSE, version |-> 0, video |-> FALSE, audio |-> FALSE]
         /\ got = <<>>
@@ -140,48 +164,59 @@ Init == /\ flags \in FlagSets /\ tags \in TagLists
 WriteHeader == /\ mpc = "hdr"
                /\ file' = file \o Bytes(HeaderEnc(flags))
                /\ mpc' = "tag"
-               /\ UNCHANGED <<flags, tags, written, avail, dpc, pos, pending, hdrOut, got>>
+               /\ UNCHANGED <<flags, tags, arena, written, avail, eofWith, dpc, pos, pending, hdrOut, got>>
 WriteTag    == /\ mpc = "tag" /\ written < Len(tags)
-               /\ file' = file \o MuxTagBytes(tags[written + 1])
+               /\ LET g == tags[written + 1]  off == BodyOff(tags, written + 1) IN
+                    /\ file'  = file \o MuxTagBytes(g, Sub(arena, off + 1, g.n))
+                    /\ arena' = MuxArenaAfter(arena, off, g)
                /\ written' = written + 1
-               /\ UNCHANGED <<flags, tags, mpc, avail, dpc, pos, pending, hdrOut, got>>
+               /\ UNCHANGED <<flags, tags, mpc, avail, eofWith, dpc, pos, pending, hdrOut, got>>
 CloseMux    == /\ mpc = "tag" /\ written = Len(tags)
                /\ mpc' = "closed"
-               /\ UNCHANGED <<flags, tags, written, file, avail, dpc, pos, pending, hdrOut, got>>
+               /\ UNCHANGED <<flags, tags, arena, written, file, avail, eofWith, dpc, pos, pending, hdrOut, got>>
 
 \* transport: one more segment reaches the reader
 Deliver(n)  == /\ n > 0 /\ avail + n <= Len(file)
                /\ avail' = avail + n
-               /\ UNCHANGED <<flags, tags, mpc, written, file, dpc, pos, pending, hdrOut, got>>
+               /\ UNCHANGED <<flags, tags, arena, mpc, written, file, eofWith, dpc, pos, pending, hdrOut, got>>
 DeliverRest == /\ avail < Len(file)
                /\ avail' = Len(file)
-               /\ UNCHANGED <<flags, tags, mpc, written, file, dpc, pos, pending, hdrOut, got>>
+               /\ UNCHANGED <<flags, tags, arena, mpc, written, file, eofWith, dpc, pos, pending, hdrOut, got>>
+\* the last segment of a finished file, end-of-stream reported by the same Read that hands out its last byte
+\* (otherwise end-of-stream is a Read of its own, after everything has been delivered: ReadEOF)
+DeliverFinal == /\ mpc = "closed" /\ avail < Len(file)
+                /\ avail' = Len(file) /\ eofWith' = TRUE
+                /\ UNCHANGED <<flags, tags, arena, mpc, written, file, dpc, pos, pending, hdrOut, got>>
 
 \* demuxer: a call returns when the bytes it needs have arrived
 Buffered == avail - pos
 ReadHeader    == /\ dpc = "hdr" /\ Buffered >= 13
                  /\ hdrOut' = DemuxHeader(Sub(file, pos + 1, 13))
                  /\ pos' = pos + 13 /\ dpc' = "tagHdr"
-                 /\ UNCHANGED <<flags, tags, mpc, written, file, avail, pending, got>>
+                 /\ UNCHANGED <<flags, tags, arena, mpc, written, file, avail, eofWith, pending, got>>
 ReadTagHeader == /\ dpc = "tagHdr" /\ Buffered >= 11
                  /\ pending' = DemuxTagHeader(Sub(file, pos + 1, 11))
                  /\ pos' = pos + 11 /\ dpc' = "body"
-                 /\ UNCHANGED <<flags, tags, mpc, written, file, avail, hdrOut, got>>
+                 /\ UNCHANGED <<flags, tags, arena, mpc, written, file, avail, eofWith, hdrOut, got>>
 \* the body, then 4 bytes PreviousTagSize which are dropped
+\* (deviation "demux-err-before-n": the Read that completes the call came back with end-of-stream -> the call fails)
+LosesLast(take) == Deviation = "demux-err-before-n" /\ eofWith /\ take > 0 /\ pos + take = Len(file)
 ReadTag       == /\ dpc = "body" /\ Buffered >= pending.n + 4
-                 /\ got' = Append(got, [t |-> pending.t, ts |-> pending.ts, n |-> pending.n,
-                                        body |-> Sub(file, pos + 1, pending.n)])
-                 /\ pos' = pos + DemuxTagTake(pending.n) /\ dpc' = "tagHdr"
-                 /\ UNCHANGED <<flags, tags, mpc, written, file, avail, pending, hdrOut>>
+                 /\ IF LosesLast(pending.n + 4)
+                    THEN /\ dpc' = "failed" /\ pos' = Len(file) /\ got' = got
+                    ELSE /\ got' = Append(got, [t |-> pending.t, ts |-> pending.ts, n |-> pending.n,
+                                                body |-> Sub(file, pos + 1, pending.n)])
+                         /\ pos' = pos + DemuxTagTake(pending.n) /\ dpc' = "tagHdr"
+                 /\ UNCHANGED <<flags, tags, arena, mpc, written, file, avail, eofWith, pending, hdrOut>>
 \* end of file exactly at a tag boundary: ReadTagHeader reports EOF, nothing is returned
 ReadEOF       == /\ dpc = "tagHdr" /\ mpc = "closed" /\ pos = Len(file)
                  /\ dpc' = "eof"
-                 /\ UNCHANGED <<flags, tags, mpc, written, file, avail, pos, pending, hdrOut, got>>
+                 /\ UNCHANGED <<flags, tags, arena, mpc, written, file, avail, eofWith, pos, pending, hdrOut, got>>
 
-Done == dpc = "eof" /\ UNCHANGED vars
+Done == dpc \in {"eof", "failed"} /\ UNCHANGED vars
 
 Next == \/ WriteHeader \/ WriteTag \/ CloseMux
-        \/ (\E n \in Segs : Deliver(n)) \/ DeliverRest
+        \/ (\E n \in Segs : Deliver(n)) \/ DeliverRest \/ DeliverFinal
         \/ ReadHeader \/ ReadTagHeader \/ ReadTag \/ ReadEOF
         \/ Done
 Spec == Init /\ [][Next]_vars
@@ -206,6 +241,11 @@ HeaderOk == dpc # "hdr" => hdrOut = [sig |-> TRUE, version |-> 1, video |-> flag
 Framing  == /\ pos <= avail /\ avail <= Len(file)
             /\ dpc = "hdr" => pos = 0
             /\ dpc # "hdr" => pos = ByteLen(FileEnc(flags, SubSeq(tags, 1, Len(got)))) + (IF dpc = "body" THEN 11 ELSE 0)
+\* the muxer only reads the caller's memory: every body, written already or still to be written, stays what the
+\* application put there (else the tags written are not the tags the caller built)
+InputsUntouched == arena = ArenaOf(tags)
+\* a call whose bytes have all been delivered returns them, however the reader signals the end of the stream
+NoLoss   == dpc # "failed"
 \* a returned tag is never taken back or altered
 Monotone == [][\/ got' = got
                \/ Len(got') = Len(got) + 1 /\ SubSeq(got', 1, Len(got)) = got]_vars
